@@ -24,6 +24,15 @@ CHECKS = {
          'Counts after an AtLeastOnce restart are not judged. The concurrent clause runs under the H2 token scheduler (cfg walrus_verif).', '§5 C15'),
 }
 CHECKS.update({
+ 'C18': ('E6', 'exploration', 'exhaustive bounded enumeration of command sequences (prefix-shared tree over a 36-command alphabet) plus proptest sequences with invalid and mutated encodings, invariant oracle with sealed-segment history',
+         'metadata.rs is included unmodified and driven in-process: every command sequence up to length 5 (quick) / 6 (thorough) over a 36-command alphabet, generated sequences of up to 400 commands with arbitrary names and counts, and raw / mutated byte strings; after every command the invariants of the property are checked and an Err must leave the state unchanged.',
+         'Decoding uses the stand-in bincode codec (/verif/shims/bincode, wire format of bincode 1.3 defaults). Counts above 2^32 only arise through mutated encodings.', '§5 C18'),
+ 'C20': ('E6', 'exploration', 'round-trip / differential property testing of the state machine snapshot (snapshot, restore into a fresh machine, compare, then apply a common generated suffix to both)',
+         'Clause (a) of the property: for generated s1 ++ s2 the machine restored from A\'s snapshot must equal A (canonicalised) and answer and evolve identically under s2; damaged snapshots must be rejected without effect or accepted.',
+         'Clause (b) (transfer through octopii\'s Raft state-machine adapter) needs the vendored openraft, whose dependencies are not available offline: not exercised, see DESIGN.md §5 C20 and §8.', '§5 C20'),
+ 'C25': ('E6', 'exploration', 'exhaustive small-alphabet enumeration plus proptest pairs: round trip and injectivity of the storage key codec',
+         'controller/types.rs included unmodified; all 3906 topics of length <= 5 over {t,s,_,1,0} x 6 segments (round trip, no shared key) and generated Unicode topics weighted towards the separator fragments with arbitrary u64 segments (round trip, pairwise distinct keys, boundary-shift near misses).',
+         'None beyond proptest.', '§5 C25'),
  'C12': ('E1', 'exploration', 'model-based property testing of reclamation histories on the real file geometry (fill a whole WAL file, generated consumption plans, wait for the reclaimer, restart) with a FIFO oracle and a direct "reclaimed file held only consumed entries" oracle',
          'Each generated case allocates all 100 blocks of the first WAL file over 1-5 topics and moves every active block to the second file, applies a generated per-topic consumption plan (drain + empty polls / partial / peeks / nothing) and extra reads, waits for the 1000-tick reclaimer, runs a second phase and then demands - normally after a fresh-process restart - exactly the unconsumed entries; if a WAL file disappeared, every entry stored in it must have been consumed.',
          'Open finding C12-positions-shift-after-reclaim (restart after a reclaimed file renumbers blocks; persisted cursors then skip unconsumed entries) is probed on every run; while it is open, cases in which a file really was reclaimed are finished without the restart. ~0.6 GB of tmpfs per case.', '§5 C12'),
@@ -96,6 +105,7 @@ m = {
  },
  'engines': [
    {'name': 'E1', 'path': 'harness/src/{absop,interp,model}.rs', 'serves_properties': ['C01','C02','C03','C06','C12','C14','C15','C16','C17'], 'kind_free_text': 'sequential model-based search: proptest-generated abstract histories, interpreted against a FIFO reference model, executed in child processes on the real engine'},
+   {'name': 'E6', 'path': 'dist/src/meta.rs', 'serves_properties': ['C18','C20','C25'], 'kind_free_text': 'in-process checks of distributed-walrus metadata.rs and controller/types.rs (#[path]-included unmodified, compiled against stand-in crates under /verif/shims)'},
    {'name': 'E4', 'path': 'harness/src/props/multi.rs', 'serves_properties': ['C13'], 'kind_free_text': 'multi-instance interpreter: one child process, several Walrus instances, one reference model per instance'},
    {'name': 'E3', 'path': 'harness/src/props/conc.rs, harness/src/conc.rs', 'serves_properties': ['C05','C15'], 'kind_free_text': 'schedule-controlled concurrency: thread programs executed under the H2 token scheduler (cfg walrus_verif), schedules generated by proptest or enumerated with a preemption bound'},
    {'name': 'E2', 'path': 'harness/src/props/crash.rs', 'serves_properties': ['C04','C07','C08','C09'], 'kind_free_text': 'crash-point enumeration: E1 workloads traced through the H1 I/O seam, re-executed with the process terminated at each selected event, recovered in a fresh process and judged against the acknowledged history'},
